@@ -253,6 +253,8 @@ class SymSeq(Model):
                           lambda idx: f(self.core_at(I, idx), other.core_at(I, idx)), tail=[f(a, b) for a, b in zip(self.tail, other.tail)])
         if isinstance(other, (list, tuple)) and isinstance(op, ast.Add) and not swapped:
             return SymSeq(self.key + "+list", self.core_len, self.elem, self.facts, tail=self.tail + list(other))
+        if isinstance(other, (list, tuple)) and isinstance(op, ast.Add) and swapped:
+            raise Unsupported("list + symbolic sequence (a symbolic sequence has no concrete prefix)")
         if swapped:
             return self.map(I, "(c%s%s)" % (type(op).__name__, self.key), lambda v: I.binop(op, other, v))
         return self.map(I, "(%s%sc)" % (self.key, type(op).__name__), lambda v: I.binop(op, v, other))
@@ -344,7 +346,7 @@ def loop_carried_names(loop, store_ok=(), distinct_calls=()):
                         definite.add(t.id)
                     elif isinstance(t, (ast.Tuple, ast.List)) and all(isinstance(e, ast.Name) or (isinstance(e, ast.Subscript) and ast.unparse(e.value) in cells) for e in t.elts):
                         definite.update(e.id for e in t.elts if isinstance(e, ast.Name))  # names are (re)defined; X[i] elements are per-iteration cells
-                    elif isinstance(t, ast.Subscript) and isinstance(t.value, ast.Name) and t.value.id in store_ok:
+                    elif isinstance(t, ast.Subscript) and ast.unparse(t.value) in store_ok:
                         reads(t.slice, definite)  # a store into the designated write-only accumulator
                     elif isinstance(t, ast.Subscript) and ast.unparse(t.value) in cells:
                         pass  # X[i] = ... where iteration i is the only one touching cell i of X
